@@ -299,6 +299,8 @@ def run(ctx):
     from . import meta_rules as _mr
     _mr.rowcount_rule(ctx, 'R10.16', only_modules={'api', 'writer', 'util'})
     from . import callsigs as _cs
+    from . import findings3 as _f3
+    _f3.thrift_reader_forms(ctx, 'R10.17', 'R12.6')
     _cs.general_rules(ctx, 'R10', ['writer.write_common_metadata', 'writer.make_part_file', 'util.update_custom_metadata',
                                     'writer.update_file_custom_metadata', 'util.metadata_from_many', 'writer.make_metadata',
                                     'writer.write_thrift', 'writer.consolidate_categories', 'writer.merge', 'api.ParquetFile.__setstate__', 'api.ParquetFile.__getstate__'])
